@@ -157,6 +157,17 @@ ExercisedDist(r) ==
         nonzero_setpoint |-> B2N(\E g \in 1..Len(o.d) : \E j \in 1..Len(o.d[g]) : Abs(o.d[g][j]) > Tol),
         multi_inverter |-> B2N(\E g \in 1..Len(i.groups) : Len(i.groups[g].invs) > 1),
         multi_battery |-> B2N(\E g \in 1..Len(i.groups) : Len(i.groups[g].bats) > 1),
+        zero_headroom_among_three_with_excl |->
+            B2N(/\ Len(i.groups) >= 3
+                /\ \E g \in 1..Len(i.groups) : NoHeadroom(i.groups[g], i.power) /\ MinPowerOf(Side(i.groups[g], i.power < 0)) > 0
+                /\ Cardinality({g \in 1..Len(i.groups) : ~NoHeadroom(i.groups[g], i.power)}) >= 2),
+        hetero_group_at_soc_limit |->
+            B2N(\E g \in 1..Len(i.groups) :
+                  /\ Len(i.groups[g].bats) > 1 /\ NoHeadroom(i.groups[g], i.power)
+                  /\ \E x \in 1..Len(i.groups[g].bats), y \in 1..Len(i.groups[g].bats) :
+                        /\ i.groups[g].bats[x].cap # i.groups[g].bats[y].cap
+                        /\ i.groups[g].bats[x].slo # i.groups[g].bats[y].slo
+                        /\ i.groups[g].bats[x].shi # i.groups[g].bats[y].shi),
         third_inverter_powered |-> B2N(\E g \in 1..Len(o.d) : Len(o.d[g]) >= 3 /\ Abs(o.d[g][3]) > Tol),
         at_excl |-> B2N(i.power \in {a.el, a.eu}),
         at_incl |-> B2N(i.power \in {a.il, a.iu}),
